@@ -108,6 +108,12 @@ class C03(common.Spec):
             ns['enter_' + st] = mk_enter(st, sc, False)
         for st, f in ins['exit_meth']:
             ns['exit_' + st] = mk_exit(st, f, False)
+        keep = frozenset(ins.get('keep', ()))
+        if keep:
+            # calc_output() returning UNDEF = "leave the output unchanged"
+            def calc_output(self):
+                return edzed.UNDEF if self.state in keep else self.state
+            ns['calc_output'] = calc_output
         try:
             cls = type('GenFSM', (edzed.FSM,), ns)
         except Exception as err:
@@ -210,7 +216,7 @@ class C03(common.Spec):
         xact = {'log': 'XLog', 'fail': 'XFail', 'self': 'XSelf'}
         inst = ("{| i_cond_inst := %s; i_cond_meth := %s; i_enter_inst := %s; i_enter_meth := %s;\n"
                 "   i_exit_inst := %s; i_exit_meth := %s; i_on_enter := %s; i_on_exit := %s;\n"
-                "   i_on_notrans := %s; i_dur := %s |}") % (
+                "   i_on_notrans := %s; i_dur := %s; i_keep := %s |}") % (
             clist(ins['cond_inst'], lambda x: cpair(cstr(x[0]), cbool(x[1]))),
             clist(ins['cond_meth'], lambda x: cpair(cstr(x[0]), cbool(x[1]))),
             clist(ins['enter_inst'], lambda x: cpair(cstr(x[0]), clist(x[1], act))),
@@ -218,7 +224,8 @@ class C03(common.Spec):
             clist(ins['exit_inst'], lambda x: cpair(cstr(x[0]), xact[x[1]])),
             clist(ins['exit_meth'], lambda x: cpair(cstr(x[0]), xact[x[1]])),
             clist(ins['on_enter'], cstr), clist(ins['on_exit'], cstr), cbool(ins['on_notrans']),
-            clist(d['timed'], lambda x: cpair(cstr(x[0]), dur[x[1]])))
+            clist(d['timed'], lambda x: cpair(cstr(x[0]), dur[x[1]])),
+            clist(ins.get('keep', []), cstr))
 
         def logent(e):
             k = e[0]
@@ -259,8 +266,8 @@ class C03(common.Spec):
             yield dict(case, events=evs[:i] + evs[i + 1:])
         ins = case['inst']
         for key in ('cond_inst', 'cond_meth', 'enter_inst', 'enter_meth', 'exit_inst', 'exit_meth',
-                    'on_enter', 'on_exit'):
-            for i in range(len(ins[key])):
+                    'on_enter', 'on_exit', 'keep'):
+            for i in range(len(ins.get(key, []))):
                 yield dict(case, inst=dict(ins, **{key: ins[key][:i] + ins[key][i + 1:]}))
 
     def clause(self, case, obs):
@@ -327,7 +334,12 @@ def gen_case(rng, nstates=None):
         exit_meth=[[s, rng.choice(['log'] * 10 + ['fail', 'self'])] for s in states if rng.random() < 0.3],
         on_enter=[s for s in states if rng.random() < 0.5],
         on_exit=[s for s in states if rng.random() < 0.5],
-        on_notrans=rng.random() < 0.6)
+        on_notrans=rng.random() < 0.6,
+        # never the initial state: the FSM must get an output at all
+        keep=[s for s in states[1:] if rng.random() < 0.5] if rng.random() < 0.3 else [])
+    if any(st == states[0] and sc for st, sc in inst['enter_inst'] + inst['enter_meth']) \
+            or any(t[0] == states[0] and t[1] == 'zero' for t in timed):
+        inst['keep'] = []      # the initialization could end in a state that leaves the output UNDEF
     seq = [[rng.choice(evpool), next(tagc)] for _ in range(rng.randrange(1, 6))]
     return dict({'def': dict(states=states, events=events, timed=timed)}, inst=inst, events=seq)
 
